@@ -3079,12 +3079,14 @@ class x86_mn(x86_mn_base):
         size = set([ a[x86_afs.size] for a in args ])
         size.discard(True)
         size.discard(x86_afs.u32)
-        if len(size) == 1:
-            size = size.pop()
-        elif len(size) == 0:
-            size = x86_afs.u32
-        if size in [mm, xmm]:
+        if mm in size or xmm in size:
             size = x86_afs.u08
+        elif len(size) == 1 and list(size)[0] in tab_size2int:
+            size = size.pop()
+        else:
+            # no size, operands of different sizes, or a size that no
+            # immediate has (x87): no row will accept the operands
+            size = x86_afs.u32
         for a in args:
             if x86_afs.imm in a:
                 if a[x86_afs.ad]: t_size = tab_size2int[x86_afs.u32]
